@@ -99,13 +99,13 @@ MM = {
         ('// deal with castling, here we also make sure', 0, 'let ghost pre_ca = *board;'),
     ],
     'block_end': [
-        ('board.pawn_double_move = Some(target)', 0, """proof {
+        ('board.pawn_double_move = Some(target)', 0, """@C04,C05| proof {
                 let s = &*board; let h = zobrist_hasher;
                 let e = h.ep(target.1 as int);
                 lemma_key_component(kp(s, h), ks(s, h), kc1(s, h), kc2(s, h), kc3(s, h), kc4(s, h), 0u64, e);
                 assert(key_ok(s, h));
             }"""),
-        ('board.zobrist_key ^= zobrist_hasher.get_val_for_piece(', 0, """proof {
+        ('board.zobrist_key ^= zobrist_hasher.get_val_for_piece(', 0, """@C04,C05| proof {
                 %(FRM)s
                 let s = &*board;
                 // a pawn moving diagonally onto an empty square is no ordinary pawn target: it is the en-passant capture
@@ -121,7 +121,7 @@ MM = {
                 lemma_key_component(a, ks(s, h), kc1(s, h), kc2(s, h), kc3(s, h), kc4(s, h), ep_hash(s, h), d);
                 assert(key_ok(s, h));
             }""" % {'FRM': FRM}),
-        ('board.board[end_pair.0][end_pair.1] = promotion_piece.into()', 0, """proof {
+        ('board.board[end_pair.0][end_pair.1] = promotion_piece.into()', 0, """@C04,C05| proof {
             %(FRM)s
             let s = &*board;
             let q = promotion_piece; let pw = Piece { kind: Pawn, color: b0.to_move };
@@ -136,7 +136,7 @@ MM = {
             assert(key_ok(s, h));
         }""" % {'FRM': FRM}),
     ],
-    'at_end': """proof {
+    'at_end': """@C04| proof {
         %(FRM)s
         let s = &*board;
         assert(start_pair == m.0 && end_pair == m.1);
